@@ -153,6 +153,14 @@ fn main() {
         op(&mut rec, &format!("SymbolSlab of {count} symbols of {ss} bytes: gather([0,3,4])"), move || { let x = mk2(); std::hint::black_box(x.gather(&[0, 3, 4]).len()); });
         let (a, b) = (syms[0].clone(), syms[1].clone());
         op(&mut rec, &format!("Symbol of {ss} bytes: += , mulassign_scalar, fused_addassign_mul_scalar"), move || { let mut x = Symbol::new(a); let y = Symbol::new(b); x += &y; x.mulassign_scalar(&Octet::new(200)); x.fused_addassign_mul_scalar(&y, &Octet::new(3)); std::hint::black_box(x.as_bytes()[0]); });
+        for delta in [1usize, 30, 64] {
+            let (a, b) = (rng.bytes(ss + delta), rng.bytes(ss));
+            op(&mut rec, &format!("Symbol of {} bytes: fused_addassign_mul_scalar with a Symbol of {ss} bytes (shorter source)", ss + delta), move || { let mut x = Symbol::new(a); let y = Symbol::new(b); x.fused_addassign_mul_scalar(&y, &Octet::new(5)); std::hint::black_box(x.as_bytes()[0]); });
+            let (a, b) = (rng.bytes(ss), rng.bytes(ss + delta));
+            op(&mut rec, &format!("Symbol of {ss} bytes: fused_addassign_mul_scalar with a Symbol of {} bytes (longer source)", ss + delta), move || { let mut x = Symbol::new(a); let y = Symbol::new(b); x.fused_addassign_mul_scalar(&y, &Octet::new(5)); std::hint::black_box(x.as_bytes()[0]); });
+            let (a, b) = (rng.bytes(ss + delta), rng.bytes(ss));
+            op(&mut rec, &format!("Symbol of {} bytes += Symbol of {ss} bytes (shorter source)", ss + delta), move || { let mut x = Symbol::new(a); let y = Symbol::new(b); x += &y; std::hint::black_box(x.as_bytes()[0]); });
+        }
         let (a, b) = (syms[0].clone(), rng.bytes(ss + 1));
         op(&mut rec, &format!("Symbol of {ss} bytes += Symbol of {} bytes (length mismatch)", ss + 1), move || { let mut x = Symbol::new(a); let y = Symbol::new(b); x += &y; });
     }
